@@ -131,11 +131,12 @@ pub(crate) enum RingType {
 ///
 /// https://stackoverflow.com/questions/1165647/how-to-determine-if-a-list-of-polygon-points-are-in-clockwise-order/1180256#1180256
 pub(crate) fn ring_type_from_points_ordering<PointType: HasXY>(points: &[PointType]) -> RingType {
+    // Twice the signed area: only its sign matters, and halving it
+    // could round the smallest values to zero
     let area = points
         .windows(2)
         .map(|pts| (pts[1].x() - pts[0].x()) * (pts[1].y() + pts[0].y()))
-        .sum::<f64>()
-        / 2.0f64;
+        .sum::<f64>();
 
     if area < 0.0 {
         RingType::InnerRing
